@@ -276,7 +276,7 @@ func solveAll(units []*Unit, opts solveOpts) {
 	os.MkdirAll(opts.WorkDir, 0o755)
 	n := opts.Jobs
 	if n <= 0 {
-		n = 16
+		n = 10 // each obligation may run up to four solver processes at a time
 	}
 	ch := make(chan job)
 	var wg sync.WaitGroup
